@@ -16,7 +16,7 @@ RULE = ("laws: Hypothesis draws triples X,Y,Z of one group type (generators of C
         "textbook quaternion formula in float64 (3x3 R, 4x4 [sR t;0 1]).  Checked: matrix()==M(X) and its blocks equal "
         "rotation()/translation()/scale(); M(X@Y)=M(X)M(Y); associativity; X@Inv(X)=Inv(X)@X=I; identity constructors "
         "neutral on both sides; Act on 3- and 4-vectors == M p; (X@Y).Act(p)=X.Act(Y.Act(p)); X@p and X*p == Act. "
-        "Tolerance 16*eps*prod(|M|_inf of the factors)*(1+|p|).  history: run-length encoded histories (<=1500 steps "
+        "Tolerance 32*eps*prod(|M|_inf of the factors)*(1+|p|).  history: run-length encoded histories (<=1500 steps "
         "quick, 10^4 thorough) of left/right products, Inv, add_, +, Retr (increment magnitude per block from {0.3, 1e-2, 7e-4, 1e-6}) on ONE element against a float64 matrix "
         "model; after EVERY step | |q|-1 | <= 4 eps (1+n), scale>0 and |matrix - model| <= 256 eps (1+n) * running "
         "scale.  Non-trivial: triple with pairwise non-commuting rotations and non-zero translations; history with "
@@ -97,7 +97,7 @@ class Laws(Sub):
             if not np.all(np.isfinite(got)):
                 rec.fail("nonfinite:" + bucket, "%s is not finite: %s" % (what, got.tolist()))
                 return
-            tol = 16 * eps * scale
+            tol = 32 * eps * scale
             err = float(np.abs(got - want).max())
             key = "r_" + bucket.split(":")[0]
             rec.notes[key] = max(rec.notes.get(key, 0), err / tol)
